@@ -32,7 +32,7 @@ CORPUS = [
     '# ::snt a ; ( ) " # b\n(e / eps :polarity - :mod (f / phi~e.1))',
     '# ::snt x y\u0085z\x0cw\x0bv\x1cu\n(g / gamma :op1 "p q\x0br\x1cs\u0085t" :op2 k l)',
     '(h / eta :ARG0 (i / iota :ARG0 (j / kappa)) :ARG1 j)',
-    '# ::id 7\n(k)',
+    '# ::id 7 ::lang C#\n(k)',
     '# ::empty\n(m / mu :ARG0 (n / nu))',
 ]
 TERMS = {'LF': '\n', 'CRLF': '\r\n', 'CR': '\r'}
@@ -111,7 +111,9 @@ def check(case, ctx):
             text = buf.getvalue()
         elif ser == 'dump_file':
             p = os.path.join(d, 'dump.txt')
-            penman.dump(iter(originals), p, indent=indent)
+            with open(p, 'w', encoding='utf-8') as fh:
+                fh.write('(stale / content)\n')       # dump must replace whatever the file held
+            penman.dump(list(originals) if len(originals) % 2 == 0 else iter(originals), p, indent=indent)
             with open(p, encoding='utf-8', newline='') as fh:
                 text = fh.read()
         else:
